@@ -367,7 +367,10 @@ func xlogData(wal uint64, payload string) pgproto3.BackendMessage {
 	d := make([]byte, 25+len(payload))
 	d[0] = pglogrepl.XLogDataByteID
 	binary.BigEndian.PutUint64(d[1:9], wal)
-	binary.BigEndian.PutUint64(d[9:17], wal)
+	// ServerWALEnd: "the current end of WAL on the server": at or beyond the position of the data, never a
+	// position the client may take for the position of this message (PostgreSQL's logical walsender happens
+	// to send the two equal; the protocol does not promise it)
+	binary.BigEndian.PutUint64(d[9:17], wal+[]uint64{0, 0, 17, 5000, 1 << 33}[wal%5])
 	copy(d[25:], payload)
 	return &pgproto3.CopyData{Data: d}
 }
